@@ -150,13 +150,20 @@ class ExprMixin:
                 parts.append(p.value)
         # evaluate the formatted values (they may raise), result: uninterpreted string
         exprs = [p for p in parts if isinstance(p, ast.AST)]
+        plain = all(isinstance(p, ast.Constant) or (p.conversion == -1 and p.format_spec is None) for p in e.values)
+
         def fin(st, vals):
-            allstr = all(isinstance(v, VStr) for v in vals)
-            if allstr and all(not isinstance(p, ast.AST) or True for p in parts):
+            ok = plain and all(isinstance(v, (VStr, VOpaque, VU)) for v in vals)
+            if ok:
+                # {v} with no conversion / format spec is str(v): the string itself, or the uninterpreted str:obj(v)
                 it = iter(vals)
                 t = None
                 for p in parts:
-                    piece = z3.StringVal(p) if isinstance(p, str) else next(it).t
+                    if isinstance(p, str):
+                        piece = z3.StringVal(p)
+                    else:
+                        v = next(it)
+                        piece = v.t if isinstance(v, VStr) else z3.Function('str:obj', Obj, z3.StringSort())(self.as_obj(v))
                     t = piece if t is None else z3.Concat(t, piece)
                 return [(st, VStr(t if t is not None else z3.StringVal("")))]
             return [(st, VStr(z3.Const(fresh_name('fstr'), z3.StringSort())))]
